@@ -7,3 +7,6 @@ OWNED = ("C13",)
 
 def run(ctx):
     c03.run(ctx, owned=OWNED, extra="c13")
+    # tree states: the same frame comparison along TtnHeap histories (both mirrored universes)
+    from . import c11
+    c11.run(ctx, owned=OWNED)
